@@ -13,6 +13,9 @@ BASE_NOTE = ("Trusted: Coq 8.16.1 kernel incl. vm_compute; the spec files (Alpha
 
 # id -> (claimed?, level text, technique, level_note extra, design ref)
 CLAIMED = {
+    "C17": ("The codon dictionary and the complement tables are dumped from the running code on every run; over that dump the kernel evaluates the complete sweeps (all 3375 IUPAC codons against unique-product under an independently written standard code, all 64 unambiguous codons, all 32 accepted characters x both gap encodings for complement in text and bit-encoded form) and the sweeps are lifted to universally quantified theorems; Translate (strict and lenient) and complement/reverse-complement involution are proved for every length. Differential run of alphabet.Translate/Complement/ReverseComplement and the FastaRecord/EncodedFastaRecord methods against model and spec.",
+            "Coq proof (complete finite sweeps of tables regenerated from the code, lifted by forallb_forall; induction over length) + correspondence check",
+            "", "5 C17"),
     "C03": ("For every pair of byte files the Coq model of `snps` (reader over the dumped encoding tables, bitwise "
             "test, decoder, row printer) is proved equal to the specification command built from the IUPAC meaning "
             "of the symbols (C03_command_eq_spec), with soundness, completeness, ascending order and "
